@@ -7,25 +7,37 @@
 (* a list, cloning and assigning COPY the sequence: no later change to the *)
 (* list or to one variant is visible through another.                      *)
 (***************************************************************************)
-EXTENDS Integers, Sequences
-VARIABLES vs, ls          \* vs: [slot -> <<type, payload>>], ls: [list name -> sequence of element ids]
-hvars == <<vs, ls>>
+EXTENDS Integers, Sequences, FiniteSets, TLC
+VARIABLES vs, ls,         \* vs: [slot -> <<type, payload>>], ls: [list name -> sequence of element ids]
+          pads, mut       \* pads: ids of the Null elements created by growth; mut: those changed in place since
+hvars == <<vs, ls, pads, mut>>
 NullV == <<"Null", "">>
 IsArr(v) == vs[v][1] = "Array"
-Grow(s, n, nul) == IF Len(s) >= n THEN s ELSE s \o [i \in 1 .. n - Len(s) |-> nul]
+\* growth appends NEW Null elements, each an object of its own: "pad1", "pad2", ...
+PadId(k) == "pad" \o ToString(k)
+Grow(s, n) == IF Len(s) >= n THEN s ELSE s \o [i \in 1 .. n - Len(s) |-> PadId(Cardinality(pads) + i)]
+NewPads(s, n) == IF Len(s) >= n THEN {} ELSE {PadId(Cardinality(pads) + i) : i \in 1 .. n - Len(s)}
 
-HInit(slots, lists) == vs = [s \in slots |-> NullV] /\ ls = [x \in lists |-> <<>>]
-SetScalar(v, t, p)  == vs' = [vs EXCEPT ![v] = <<t, p>>] /\ UNCHANGED ls
-FromList(v, L)      == vs' = [vs EXCEPT ![v] = <<"Array", ls[L]>>] /\ UNCHANGED ls          \* own copy
-\* index writes past the end grow the array with fresh Null elements (their identities are new, written "n")
-SetByIndex(v, i, e, nul) == /\ IsArr(v)
-                            /\ vs' = [vs EXCEPT ![v] = <<"Array", [Grow(vs[v][2], i + 1, nul) EXCEPT ![i + 1] = e]>>]
-                            /\ UNCHANGED ls
-SetLength(v, n, nul) == IsArr(v) /\ vs' = [vs EXCEPT ![v] = <<"Array", Grow(vs[v][2], n, nul)>>] /\ UNCHANGED ls
-CopyTo(w, v)        == vs' = [vs EXCEPT ![w] = vs[v]] /\ UNCHANGED ls                      \* Clone / Assign / SetAsObject(*Variant)
-ClearV(v)           == vs' = [vs EXCEPT ![v] = NullV] /\ UNCHANGED ls
-ListSet(L, s)       == ls' = [ls EXCEPT ![L] = s] /\ UNCHANGED vs
-ListPut(L, i, e)    == i < Len(ls[L]) /\ ls' = [ls EXCEPT ![L][i + 1] = e] /\ UNCHANGED vs   \* the caller mutates its own list
+HInit(slots, lists) == vs = [s \in slots |-> NullV] /\ ls = [x \in lists |-> <<>>] /\ pads = {} /\ mut = {}
+SetScalar(v, t, p)  == vs' = [vs EXCEPT ![v] = <<t, p>>] /\ UNCHANGED <<ls, pads, mut>>
+FromList(v, L)      == vs' = [vs EXCEPT ![v] = <<"Array", ls[L]>>] /\ UNCHANGED <<ls, pads, mut>>          \* own copy
+\* index writes past the end grow the array with new Null elements
+SetByIndex(v, i, e) == /\ IsArr(v)
+                       /\ vs' = [vs EXCEPT ![v] = <<"Array", [Grow(vs[v][2], i + 1) EXCEPT ![i + 1] = e]>>]
+                       /\ pads' = pads \cup NewPads(vs[v][2], i + 1)
+                       /\ UNCHANGED <<ls, mut>>
+SetLength(v, n) == /\ IsArr(v) /\ vs' = [vs EXCEPT ![v] = <<"Array", Grow(vs[v][2], n)>>]
+                   /\ pads' = pads \cup NewPads(vs[v][2], n) /\ UNCHANGED <<ls, mut>>
+\* a caller changes, in place, the Null element that growth put at position i (elements are shared by reference
+\* between an array and its shallow copies, so exactly the arrays holding THAT element see it)
+MutElem(v, i) == /\ mut' = IF IsArr(v) /\ i < Len(vs[v][2]) /\ vs[v][2][i + 1] \in pads THEN mut \cup {vs[v][2][i + 1]} ELSE mut
+                 /\ UNCHANGED <<vs, ls, pads>>
+\* what an observer sees of an element: named elements by name, growth elements as "nul" or, once changed, "other"
+Seen(id, pp, mm) == IF id \in pp THEN (IF id \in mm THEN "other" ELSE "nul") ELSE id
+CopyTo(w, v)        == vs' = [vs EXCEPT ![w] = vs[v]] /\ UNCHANGED <<ls, pads, mut>>                      \* Clone / Assign / SetAsObject(*Variant)
+ClearV(v)           == vs' = [vs EXCEPT ![v] = NullV] /\ UNCHANGED <<ls, pads, mut>>
+ListSet(L, s)       == ls' = [ls EXCEPT ![L] = s] /\ UNCHANGED <<vs, pads, mut>>
+ListPut(L, i, e)    == i < Len(ls[L]) /\ ls' = [ls EXCEPT ![L][i + 1] = e] /\ UNCHANGED <<vs, pads, mut>>   \* the caller mutates its own list
 
 \* Equality: scalars by type and payload; arrays element-wise. "yes"/"no"/"either" (identity vs value comparison of
 \* elements is left open: equal references => yes; different lengths => no; otherwise either)
